@@ -52,15 +52,71 @@ class Ctx:
         self.unmodelled = {}
         self.floors = []
         self.extra = {}
+        self.cfg_map = {}     # R-CFG re-runs: the default configuration is replaced by a variant
+        self.variant = None
 
     def db(self, cfg):
+        cfg = self.cfg_map.get(cfg, cfg)
         if cfg not in self.dbs:
             files, key = extract.ensure_facts(cfg)
             self.tree_key = key
             self.dbs[cfg] = DB(files, cfg)
         return self.dbs[cfg]
 
+    def cfg_sensitive(self):
+        """R-CFG: functions of `average` whose MIR body under another feature configuration (D = std,
+        A = serde+rayon+nightly+libm, C = no features) differs from the body under the default
+        configuration B, up to the names of the float intrinsics the features select.  Returns
+        {cfg: {source file: [fn paths]}}."""
+        import hashlib
+        import re
+        fl = re.compile(r"^(?:<f64 as )?(?:num_traits::float::Float(?:Core)?|std::f64::<impl f64>|core::f64::<impl f64>|core::f64::math)>?::(\w+)$")
+
+        def strip(o):
+            if isinstance(o, dict):
+                if o.get("k") == "fndef" and isinstance(o.get("path"), str) and fl.match(o["path"]):
+                    return {"k": "fndef", "path": "float::" + fl.match(o["path"]).group(1)}
+                out = {}
+                for k, v in o.items():
+                    if k in ("span", "sp", "mx", "s", "full", "resolved", "resolved_local", "resolved_targs", "local", "trait", "name"):
+                        continue
+                    if k == "fn" and isinstance(v, str) and fl.match(v):
+                        v = "float::" + fl.match(v).group(1)
+                    if k == "targs" and isinstance(o.get("fn"), str) and fl.match(o["fn"]):
+                        continue
+                    out[k] = strip(v)
+                return out
+            if isinstance(o, list):
+                return [strip(x) for x in o]
+            return o
+
+        def digest(db):
+            h = {}
+            for p, f in db.fns.items():
+                if db.fn_crate.get(p) != "average":
+                    continue
+                body = {k: f[k] for k in ("blocks", "locals", "arg_count") if k in f}
+                h[p] = (hashlib.sha1(json.dumps(strip(body), sort_keys=True, default=str).encode()).hexdigest(),
+                        (f.get("span") or {}).get("sp", "?"))
+            return h
+        saved = self.cfg_map
+        self.cfg_map = {}
+        try:
+            base = digest(self.db("B"))
+            out = {}
+            for cfg in ("D", "A", "C"):
+                other = digest(self.db(cfg))
+                for p in sorted(set(base) & set(other)):
+                    if base[p][0] != other[p][0]:
+                        m = re.search(r"(src/[\w/]+\.rs)", base[p][1])
+                        out.setdefault(cfg, {}).setdefault(m.group(1) if m else "?", []).append(p)
+        finally:
+            self.cfg_map = saved
+        return out
+
     def ob(self, rule, key, fn, site, ok, detail="", d7=False, nontrivial=True, sample=None, inc=False):
+        if self.variant:
+            key = "%s@cfg-%s" % (key, self.variant)
         st = "inc" if inc else ("ok" if ok else "viol")
         o = Ob(rule, key, fn, site, st, detail, d7, nontrivial, sample)
         self.obs.append(o)
@@ -75,8 +131,10 @@ class Ctx:
                 self.unmodelled[n] = self.unmodelled.get(n, 0) + 1
 
     def floor(self, what, measured, minimum):
+        if self.variant:
+            what = "%s [cfg %s]" % (what, self.variant)
         self.floors.append({"what": what, "measured": measured, "floor": minimum, "ok": measured >= minimum})
-        if measured < minimum:
+        if measured < minimum and not getattr(self, "relaxed_floors", False):
             self.ob("FLOOR", what, "-", "-", False,
                     "instance floor missed: %s = %d < %d (an anchored public API is gone or no longer analysable)" % (what, measured, minimum))
 
@@ -86,6 +144,15 @@ class Ctx:
     def assume(self, text):
         if text not in self.assumptions:
             self.assumptions.append(text)
+
+
+def property_anchor_files(pid):
+    with open(os.path.join(VERIF, "properties.jsonl")) as fh:
+        for line in fh:
+            p = json.loads(line)
+            if p["id"] == pid:
+                return p.get("anchors", {}).get("files", [])
+    return []
 
 
 def load_known():
@@ -130,12 +197,47 @@ def main(argv):
         fatal = "extraction failed: %s" % e
     except Exception as e:
         fatal = "analysis crashed: %r\n%s" % (e, traceback.format_exc())
+    if not fatal:
+        # R-CFG: bodies that depend on a cargo feature are analysed under that feature as well
+        try:
+            sens = ctx.cfg_sensitive()
+            anchors = set(property_anchor_files(pid))
+            ctx.extra["cfg_sensitive_functions"] = sens
+            for cfg, files in sorted(sens.items()):
+                hit = sorted(f for f in files if f in anchors)
+                if not hit:
+                    continue
+                ctx.notes.append("R-CFG: %s differ(s) under cfg %s in %s: property re-analysed with cfg %s in place of the default" % (
+                    sorted(p for f in hit for p in files[f])[:6], cfg, hit, cfg))
+                ctx.cfg_map, ctx.variant = {"B": cfg}, cfg
+                ctx.relaxed_floors = cfg == "C"
+                try:
+                    spec["run"](ctx)
+                finally:
+                    ctx.cfg_map, ctx.variant, ctx.relaxed_floors = {}, None, False
+        except extract.ExtractError as e:
+            fatal = "extraction failed: %s" % e
+        except Exception as e:
+            fatal = "analysis crashed: %r\n%s" % (e, traceback.format_exc())
     if fatal:
         # fail closed, like every other floor: the rule instances this property is anchored in were
         # not (all) generated, so the current tree is not shown to satisfy it
         ctx.ob("FLOOR", "analysis completed", "-", "-", False,
                "instance floor missed: the analysis of this tree did not complete (%s); the anchored constructs "
                "could not be analysed, so the property is not established" % fatal.splitlines()[0][:300])
+
+    # an obligation (rule | function | construct key) none of whose instances could be decided is an
+    # anchor that can no longer be analysed: fail closed, like an instance floor.  Single undecided
+    # paths of an obligation that is otherwise decided stay INCONCLUSIVE (reported, exit code unchanged).
+    by_ident = {}
+    for o in ctx.obs:
+        by_ident.setdefault(o.ident(), []).append(o)
+    for ident, os_ in sorted(by_ident.items()):
+        if all(o.status == "inc" for o in os_) and os_[0].rule != "FLOOR":
+            o = os_[0]
+            ctx.ob("FLOOR", "decided:%s:%s" % (o.rule, o.key), o.fn, o.site, False,
+                   "instance floor missed: no instance of obligation [%s] %s could be decided on this tree (%s) — the construct it is "
+                   "anchored in is outside the analysed fragment, so the property is not established" % (o.rule, o.key, o.detail[:200]))
 
     known = [k for k in load_known() if k.get("property") == pid and k.get("status") == "open"]
     viol = [o for o in ctx.obs if o.status == "viol"]
